@@ -19,22 +19,29 @@ SortStable(acc, rest) == IF rest = <<>> THEN acc ELSE SortStable(InsertSorted(ac
 SumC(seq) == LET RECURSIVE F(_) F(i) == IF i = 0 THEN 0 ELSE seq[i].c + F(i - 1) IN F(Len(seq))
 SumS(seq) == LET RECURSIVE F(_) F(i) == IF i = 0 THEN 0 ELSE seq[i].s + F(i - 1) IN F(Len(seq))
 Fuse(a, b) == [c |-> a.c + b.c, s |-> a.s + b.s]
-\* K0: fuse iff q0 + (cur+next)/S <= q0 + 2/delta, delta = dn/dd
-K0Allowed(cur, nxt, S, dn, dd) ==
-    LET lhs == (cur.c + nxt.c) * dn  rhs == 2 * S * dd IN
-    IF lhs < rhs THEN {TRUE} ELSE IF lhs > rhs THEN {FALSE} ELSE {TRUE, FALSE}
+\* K0: fuse iff q0 + (cur+next)/S <= q_limit with q_limit = f_inv(f(q0) + 1) = min(q0 + 2/delta, 1), delta = dn/dd
+\* (f_inv clamps its argument to delta/2).  Q0 = total count of the centroids already emitted (q0 = Q0/S).
+\* At exact ties the floating-point comparison may go either way: both outcomes are allowed.
+K0Allowed(cur, nxt, S, dn, dd, Q0) ==
+    LET lhs     == (cur.c + nxt.c) * dn
+        rhs     == 2 * S * dd
+        clamped == Q0 * dn + rhs >= S * dn          \* q0 + 2/delta >= 1: the limit is 1
+        last    == Q0 + cur.c + nxt.c = S            \* q = 1 exactly (only for the last element)
+    IN IF clamped THEN (IF last \/ Q0 * dn + rhs = S * dn THEN {TRUE, FALSE} ELSE {TRUE})
+       ELSE IF lhs < rhs THEN {TRUE} ELSE IF lhs > rhs THEN {FALSE} ELSE {TRUE, FALSE}
 \* greedy pass over the sorted list x with decision vector d (d[i-1]: fuse x[i] into the current centroid)
 RECURSIVE Greedy(_, _, _, _, _)
 Greedy(x, i, cur, out, d) ==
     IF i > Len(x) THEN Append(out, cur)
     ELSE IF d[i - 1] THEN Greedy(x, i + 1, Fuse(cur, x[i]), out, d)
          ELSE Greedy(x, i + 1, x[i], Append(out, cur), d)
-RECURSIVE LegalK0(_, _, _, _, _, _, _)
-LegalK0(x, i, cur, d, S, dn, dd) ==
+RECURSIVE LegalK0Q(_, _, _, _, _, _, _, _)
+LegalK0Q(x, i, cur, d, S, dn, dd, Q0) ==
     IF i > Len(x) THEN TRUE
-    ELSE /\ d[i - 1] \in K0Allowed(cur, x[i], S, dn, dd)
-         /\ IF d[i - 1] THEN LegalK0(x, i + 1, Fuse(cur, x[i]), d, S, dn, dd)
-            ELSE LegalK0(x, i + 1, x[i], d, S, dn, dd)
+    ELSE /\ d[i - 1] \in K0Allowed(cur, x[i], S, dn, dd, Q0)
+         /\ IF d[i - 1] THEN LegalK0Q(x, i + 1, Fuse(cur, x[i]), d, S, dn, dd, Q0)
+            ELSE LegalK0Q(x, i + 1, x[i], d, S, dn, dd, Q0 + cur.c)
+LegalK0(x, i, cur, d, S, dn, dd) == LegalK0Q(x, i, cur, d, S, dn, dd, 0)
 \* code -> spec direction: recover the decision vector from an observed output `out` of merging the
 \* sorted list x: out must be a partition of x into contiguous groups, each output centroid the
 \* fuse of its group.  Returns the decision vector, or <<>> with ok = FALSE.
